@@ -144,12 +144,13 @@ def spline(potential_forms, potential_form_builder):
   pot2 = pform.next._replace(next = None)
 
   allowed_spline_types = [s.spline_keyword for s in spline_factories]
-  if not pot2.potential_form in allowed_spline_types:
+  pot2_label = getattr(pot2, 'potential_form', getattr(pot2, 'modifier', None))
+  if not pot2_label in allowed_spline_types:
     allowed_spline_types_str = ["'{}'".format(t) for t in allowed_spline_types]
     allowed_spline_types_str = ",".join(allowed_spline_types_str)
     raise ConfigurationException("spline modifier only accepts spline types {} for middle potential form. '{}' was found instead".format(
       allowed_spline_types_str,
-      pot2.potential_form))
+      pot2_label))
 
   if pform.next.next is None:
     raise ConfigurationException("spline modifier requires three sub-potentials to be defined only two specified.")
